@@ -57,12 +57,14 @@ class Builder:
             if '$float' in x:
                 return float(Fraction(x['$float']))
             if '$date' in x:
-                kind, us = x['$date']
+                kind, us = x['$date'][0], x['$date'][1]
+                off = x['$date'][2] if len(x['$date']) > 2 else 0
                 dt = EPOCH + datetime.timedelta(microseconds=us)
                 if kind == 0:
                     return dt.date()
                 if kind == 2:
-                    return dt.replace(tzinfo=datetime.timezone.utc)
+                    tz = datetime.timezone(datetime.timedelta(microseconds=off))
+                    return dt.replace(tzinfo=datetime.timezone.utc).astimezone(tz)
                 return dt
             if '$func' in x:
                 return Stub(x['$func'], self.calls, x.get('behaviour'), self)
@@ -105,7 +107,8 @@ class Dumper:
         if isinstance(x, datetime.datetime):
             if x.tzinfo is not None:
                 us = int((x - EPOCH.replace(tzinfo=datetime.timezone.utc)) / datetime.timedelta(microseconds=1))
-                return {'$date': [2, us]}
+                off = int(x.utcoffset() / datetime.timedelta(microseconds=1))
+                return {'$date': [2, us, off]}
             return {'$date': [1, int((x - EPOCH) / datetime.timedelta(microseconds=1))]}
         if isinstance(x, datetime.date):
             return {'$date': [0, int((datetime.datetime(x.year, x.month, x.day) - EPOCH) / datetime.timedelta(microseconds=1))]}
